@@ -50,7 +50,8 @@ def run_one(path, count, workers, tier):
             out['error'] = 'patch failed: ' + r.stdout.decode()[-300:]
             return out
         for prop in props_of(path):
-            env = dict(os.environ, ANDES_DST_REPO=scratch, VERIF_WORKERS=str(workers))
+            env = dict(os.environ, ANDES_DST_REPO=scratch, VERIF_WORKERS=str(workers),
+                       ANDES_DST_EVIDENCE_DIR=os.path.join(scratch, 'evidence'), ANDES_DST_REPLAY_DIR=os.path.join(scratch, 'replays'))
             env.pop('ANDES_DST_CHILD', None)
             t0 = time.time()
             cmd = [os.path.join(VERIF, 'check'), prop, '--tier', tier, '--no-min', '--no-verify']
